@@ -81,14 +81,21 @@ def meshGo (n : Nat) : List Ix → Nat → List Ix
   | .list l :: t, k => Ix.mesh l k n :: meshGo n t (k + 1)
   | o :: t, k => o :: meshGo n t k
 
+def isListIx : Ix → Bool
+  | .list _ => true
+  | _ => false
+
+/-- slices become `list(range(len))` -/
+def fullLists (dims : DimSet) (ids : List Ix) : List Ix :=
+  List.zipWith (fun (ix : Ix) (d : Dim) => match ix with
+      | .all => Ix.list (List.range d.len) | o => o) ids dims
+
 /-- `_convert_lists_to_meshgrid` (repaired form: whenever there is a list): slices become
 `list(range(len))`, then every list becomes its `np.ix_` component -/
 def convertMesh (dims : DimSet) (ids : List Ix) : List Ix :=
-  if !(ids.any fun | .list _ => true | _ => false) then ids else
-  let ids1 := List.zipWith (fun (ix : Ix) (d : Dim) => match ix with
-      | .all => Ix.list (List.range d.len) | o => o) ids dims
-  let n := (ids1.filter fun | .list _ => true | _ => false).length
-  meshGo n ids1 0
+  if ids.any isListIx then
+    meshGo ((fullLists dims ids).filter isListIx).length (fullLists dims ids) 0
+  else ids
 
 structure Handler where
   defDict : List (String × Sel)
